@@ -38,3 +38,17 @@ extern "C" int h_geti(unsigned nx, double* grid, double x, unsigned* idx){
     return 0;
   }catch(...){ return 1; }
 }
+
+// a lookup, then the grid is replaced (vector overload, or the (a,b,scale) overload when regrid=1: first and last node of grid2 as a,b), then a second lookup
+extern "C" int h_geti_seq(unsigned nx, double* grid1, double x1, double* grid2, double x2, unsigned regrid, unsigned* idx){
+  try{
+    SQuIDS s(nx,2,1,0,0.0);
+    s.Set_xrange(std::vector<double>(grid1,grid1+nx));
+    try{ (void)s.Get_i(x1); }catch(...){}
+    if(regrid==0) s.Set_xrange(std::vector<double>(grid2,grid2+nx));
+    else s.Set_xrange(grid2[0],grid2[nx-1],"lin");
+    for(unsigned k=0;k<nx;k++) grid2[k]=s.Get_x(k);
+    *idx = s.Get_i(x2);
+    return 0;
+  }catch(...){ return 1; }
+}
